@@ -15,18 +15,7 @@ import vlib, gdlib
 from gdlib import NAMES, CSIZE, NCOMP, TSIZE, ISFLOAT, EXT, ENCS
 
 PID = "C04"
-KEY_TEXTPAD = "putdata/text/complex/write-past-end-pads-with-0-instead-of-0;0"
-
-
-def load_staged_known(chk):
-    """known_findings.d/<ID>.json is the staging area the coordinator merges into
-    known_findings.json; honour it here so the check is usable before the merge."""
-    p = os.path.join(vlib.VERIF, "known_findings.d", chk.pid + ".json")
-    if os.path.exists(p):
-        for f in json.load(open(p)).get("findings", []):
-            if f.get("property") == chk.pid and f.get("status", "open") == "open" and \
-                    f["key"] not in [k["key"] for k in chk.known]:
-                chk.known.append(f)
+KEY_TEXTPAD = "regression/putdata/text/complex/write-past-end-pads-with-0-instead-of-0;0"
 
 
 def gen_comps(rng, t, n, kind, for_text=False):
@@ -79,7 +68,6 @@ def spec_file(t, sex, enc, comps):
 
 def main():
     chk = vlib.Check(PID)
-    load_staged_known(chk)
     rng = chk.rng
     # 1. translator
     rc, tout = vlib.sh("python3 %s/translate/tr_ef.py" % vlib.VERIF)
